@@ -11,6 +11,7 @@ state observed from outside (file read when the call returns/raises; /proc/self/
 """
 from __future__ import annotations
 
+import os
 import shutil
 import tempfile
 
@@ -183,6 +184,40 @@ def check_transport_fault(run, base, k, detail, mode, scratch):
     shutil.rmtree(tr.tdir, ignore_errors=True)
 
 
+def check_nested_shared_orchestrator(run, g, detail, scratch):
+    """An outer pipeline whose middle node runs an inner pipeline through the SAME orchestrator object (own trace driver
+    each): both traces must be well-formed on their own - every record of a run carries that run's ids."""
+    from semantiva.execution.orchestrator.orchestrator import LocalSemantivaOrchestrator
+    from semantiva.pipeline.pipeline import Pipeline
+    from semantiva.trace.drivers.jsonl import JsonlTraceDriver
+    from vlib import components, tracecheck as tc
+
+    orch = LocalSemantivaOrchestrator()
+    inner_dir = tempfile.mkdtemp(prefix="inner-", dir=scratch)
+    components.NESTED.update(orchestrator=orch, trace=JsonlTraceDriver(os.path.join(inner_dir, "inner.ser.jsonl"), detail=detail))
+    nodes = [{"processor": "VSrc", "parameters": {"value": g.val()}}, {"processor": "VAddDefault"}, {"processor": "VNestedRun"},
+             {"processor": "VMulDefault"}, {"processor": "VValueProbe", "context_key": "seen"}]
+    try:
+        pipe = Pipeline(nodes, orchestrator=orch)
+        tr = tc.traced_run(nodes, "NoData", {}, detail=detail, mode="file", scratch=scratch, pipeline=pipe)
+    finally:
+        components.NESTED.clear()
+    run.count("traced_runs")
+    run.count("nested_shared_orchestrator_runs")
+    inner_files, _probs = tc.load_dir(inner_dir)
+    inner = [r for p in sorted(inner_files) for r in inner_files[p]]
+    witness = {"nodes": nodes, "detail": detail, "intended_fault": ["nested_run_same_orchestrator", 2],
+               "outer_types": [r.get("record_type") for r in tr.records], "inner_types": [r.get("record_type") for r in inner]}
+    if not tr.real.ok:
+        run.count("nested_run_failed_" + str(tr.real.exc_name))
+    else:
+        for which, recs, n in (("outer", tr.records, len(nodes)), ("inner", inner, 2)):
+            for key, msg in tc.check_single_run_stream(recs, expect_sers=n, returned=True):
+                run.violation(f"{key}@nested_run_same_orchestrator", f"{which} trace: {msg}", witness)
+    shutil.rmtree(tr.tdir, ignore_errors=True)
+    shutil.rmtree(inner_dir, ignore_errors=True)
+
+
 def run(run):
     boot.boot()
     from vlib import gen, refmodel as rm
@@ -211,6 +246,8 @@ def run(run):
                 mb = rm.run_pipeline(base["nodes"], base["data"], base["ctx"])
                 run.count("bases_with_exotic_parameter_value")
             n = len(base["nodes"])
+            if bases % 4 == 1:
+                check_nested_shared_orchestrator(run, g, DETAILS[bases % len(DETAILS)], scratch)
             if bases % 2 == 0:
                 for k in range(n):
                     check_transport_fault(run, base, k, DETAILS[(combo + k) % len(DETAILS)], ("file", "dir")[k % 2], scratch)
